@@ -835,3 +835,10 @@ func (c *Ctx) nilTests(v ssa.Value) int {
 	}
 	return m[v]
 }
+
+// litEq matches the equality literal of two terms in either operand order.
+func litEq(a, b string, pos bool) LitMatch {
+	return func(l Lit) bool {
+		return l.Pos == pos && (l.Term == "eq("+a+", "+b+")" || l.Term == "eq("+b+", "+a+")")
+	}
+}
